@@ -65,6 +65,8 @@ def generate(prop, rng, index, tier):
         cols.append({"name": names[i], "dtype": "int" if is_int else "float", "values": vals, "mask": mask})
     listed = list(range(ncols))
     rng.shuffle(listed)
+    if rng.random() < 0.12:
+        listed.insert(rng.randrange(len(listed) + 1), rng.choice(listed))     # the same result listed twice
     actor = []
     if nrows and rng.random() < 0.55:
         for _ in range(rng.choice([1, 1, 2])):
@@ -262,7 +264,8 @@ def execute(sc):
                         txt = "n/a"          # an empty only-cell would be a blank line, which is legitimately skipped
                     cells[pos] = txt
                     lines[li] = ",".join(cells)
-                    bad_cells.setdefault(listed[pos], []).append(r)
+                    if head_names.index(head_names[pos]) == pos:     # (a repeated name is read from its first column)
+                        bad_cells.setdefault(head_names[pos], []).append(r)
                 elif a["do"] == "empty-row" and nrows:
                     r = a["row"] % nrows
                     li = row_line[r]
@@ -272,7 +275,7 @@ def execute(sc):
                         bad_cells.setdefault(nm, []).append(r)
                 elif a["do"] == "rename-header":
                     pos = a["col"] % len(head_names)
-                    if a["to"] not in head_names:
+                    if a["to"] not in head_names and len(set(head_names)) == len(head_names):
                         head_names[pos] = a["to"]
                         lines[0] = _header_line(head_names)
                 elif a["do"] == "blank-after":
